@@ -245,6 +245,16 @@ func (b *builder) build(s *scen) ([]byte, *layout) {
 				hf.Mac[b.r.Intn(6)] ^= byte(1 << b.r.Intn(8))
 			}
 		}
+		if _, st := s.segOf(s.cur); s.kind == "astout" && st == s.cur && s.cur > 0 {
+			// first hop after a cross-over done by the sibling router: the AS was entered through
+			// the interface named by the previous segment's last hop
+			sg, _ := s.segOf(s.cur - 1)
+			if dp.InfoFields[sg].ConsDir {
+				dp.HopFields[s.cur-1].ConsIngress = s.tin
+			} else {
+				dp.HopFields[s.cur-1].ConsEgress = s.tin
+			}
+		}
 		if s.kind == "xover" {
 			setHop(s.cur, s.tin, 0, true)
 			setHop(s.cur+1, 0, s.teg, false)
@@ -260,7 +270,7 @@ func (b *builder) build(s *scen) ([]byte, *layout) {
 			sc.Path = raw
 		} else {
 			sc.PathType = epic.PathType
-			ets, _ := libepic.CreateTimestamp(time.Unix(int64(dp.InfoFields[0].Timestamp), 0), b.now)
+			ets, _ := libepic.CreateTimestamp(time.Unix(int64(dp.InfoFields[0].Timestamp), 0), time.Now())
 			sc.Path = &epic.Path{PktID: epic.PktID{Timestamp: ets, Counter: uint32(b.r.U64())},
 				PHVF: b.r.Bytes(4), LHVF: b.r.Bytes(4), ScionPath: raw}
 		}
@@ -293,7 +303,7 @@ func (b *builder) build(s *scen) ([]byte, *layout) {
 		extBytes, next = b.extBytes(s, sc, first, l4bytes)
 	}
 	sc.NextHdr = next
-	pldAll := append(extBytes, l4bytes...)
+	pldAll := append(append([]byte(nil), extBytes...), l4bytes...)
 	ser := func() []byte {
 		buf := gopacket.NewSerializeBuffer()
 		if err := gopacket.SerializeLayers(buf, gopacket.SerializeOptions{FixLengths: true}, sc,
@@ -321,6 +331,11 @@ func (b *builder) build(s *scen) ([]byte, *layout) {
 				ep.LHVF[0] ^= 1
 				ep.PHVF[0] ^= 1
 			}
+		}
+		if s.ext == "a" || s.ext == "ax" {
+			// the hop validation fields are authenticated data
+			extBytes, _ = b.extBytes(s, sc, first, l4bytes)
+			pldAll = append(append([]byte(nil), extBytes...), l4bytes...)
 		}
 		out = ser()
 	}
